@@ -86,6 +86,17 @@ structure Obs where
   once the input — hence the late-binding base check — is known -/
   pendingQ : List Msg := []
 
+/-- What is kept about a node whose pre-start queue held messages of several senders: which drain order the
+real participant used is Go map order and may only show later (e.g. which of two justifications for one value
+was stored first), so the untried orders stay available for backtracking. -/
+structure DrainHist where
+  pre : PState
+  beginOp : POp
+  beginToks : List String
+  untried : List (List Pid)
+  /-- the calls since the instance began, with what the implementation did and the instance-switch alarm -/
+  ops : List (POp × List String × Int) := []
+
 structure St where
   tbl : Table := { entries := [] }
   cfg : Cfg := default
@@ -99,6 +110,7 @@ structure St where
   /-- consecutive-instance runs: the multi-instance participant model (`F3.Model.MultiParticipant`), one per real
   participant, replayed beside the per-instance virtual nodes -/
   mstates : List (Pid × MState) := []
+  drainHist : List (Pid × DrainHist) := []
   /-- proposal of the instance a participant is about to begin (from the `node` line that precedes the alarm) -/
   pendingInput : List (Pid × Chain) := []
   /-- (gst, delta) are read from the `end` line -/
@@ -260,6 +272,29 @@ def processPast (st : St) (vid : Pid) (effsS retS : String) : St × Verdict :=
   else if retS != "ok" then (st, .diff s!"node={vid} a message of a finished instance returned {retS}")
   else (st, .ok "recv_past_dropped")
 
+def decToks (m m' : PState) (nextAlarm : Int) : List String :=
+  if m.inst.termination.isNone then
+    match m'.inst.termination with
+    | some d => ["D," ++ justStr (some d), s!"A,{nextAlarm}"]
+    | none => []
+  else []
+
+def toksAgree (seenJ : List String) (t impl : List String) : Bool :=
+  t.length == impl.length && (t.zip impl).all (fun (a, b) => effEq seenJ a b)
+
+/-- replay a node from before its instance began with another drain order; `some` final state iff every call
+reproduces what the implementation did -/
+def replayWith (seenJ : List String) (h : DrainHist) (order : List Pid) : Option PState :=
+  let r0 := pstepWith order h.pre h.beginOp
+  if !toksAgree seenJ (r0.2.filterMap effStr ++ decToks h.pre r0.1 nextStartAlarm) h.beginToks then none
+  else
+    h.ops.foldl (fun (acc : Option PState) (e : POp × List String × Int) =>
+      match acc with
+      | none => none
+      | some m =>
+        let r := pstep m e.1
+        if toksAgree seenJ (r.2.filterMap effStr ++ decToks m r.1 e.2.2) e.2.1 then some r.1 else none) (some r0.1)
+
 def processOp (st : St) (pid : Pid) (kind : String) (now : Int) (detail effsS progS retS : String) : St × Verdict :=
   match lookup st.models pid, lookup st.obs pid with
   | some m, some o =>
@@ -297,22 +332,34 @@ def processOp (st : St) (pid : Pid) (kind : String) (now : Int) (detail effsS pr
         t.length == implToks0.length && (t.zip implToks0).all (fun (a, b) => effEq seenJ a b)
       -- the queue drain order is Go map order: when the default order does not reproduce the observed
       -- effects, search the sender permutations (bounded) for one that does
-      let (m', effs) :=
+      let mOrig := m
+      let (m, (m', effs)) : PState × (PState × List Eff) :=
         let r0 := pstep m op
-        if agrees r0 then r0
+        if agrees r0 then (m, r0)
         else if m.started then
           -- Go map order among several non-bottom COMMIT values (only reachable with ≥ 1/3 of the power
           -- equivocating, i.e. in script mode): accept the implementation's choice if some order yields it
           match (mapOrderVariants m.inst msg?).find? (fun v => agrees (pstep { m with inst := v } op)) with
-          | some v => pstep { m with inst := v } op
-          | none => r0
-        else if (sendersOf m.queue).length ≤ 1 then r0
+          | some v => (m, pstep { m with inst := v } op)
+          | none =>
+            -- the drain order of the pre-start queue (Go map order) may only show now: backtrack over the
+            -- orders not tried yet, replaying every call since the instance began
+            match lookup st.drainHist pid with
+            | none => (m, r0)
+            | some h =>
+              match h.untried.findSome? (fun ord =>
+                  match replayWith seenJ h ord with
+                  | some mm => if agrees (pstep mm op) then some mm else none
+                  | none => none) with
+              | some mm => (mm, pstep mm op)
+              | none => (m, r0)
+        else if (sendersOf m.queue).length ≤ 1 then (m, r0)
         else
           let ss := sendersOf m.queue
           let cands := if ss.length ≤ 6 then perms ss else (List.range ss.length).map (fun i => ss.drop i ++ ss.take i) ++ [ss.reverse]
           match cands.find? (fun o => agrees (pstepWith o m op)) with
-          | some o => pstepWith o m op
-          | none => r0
+          | some o => (m, pstepWith o m op)
+          | none => (m, r0)
       -- model tokens
       let decTok : List String :=
         if m.inst.termination.isNone then
@@ -371,7 +418,24 @@ def processOp (st : St) (pid : Pid) (kind : String) (now : Int) (detail effsS pr
           | some mg => if msgStructB st.tbl mg then [] else [s!"C01-C02-C03-delivered-message-violates-MsgValid {detail}"]
           | none => [])
         let o3 := { o2 with lastProg := pg, decidedAtRound := if o2.decided.isSome && o.decided.isNone then pg.2.1 else o2.decidedAtRound }
-        let st' := { st with models := update st.models pid m', obs := update st.obs pid o3 }
+        -- drain-order history for later backtracking (only nodes whose queue held several senders)
+        let dh : List (Pid × DrainHist) :=
+          if !mOrig.started then
+            match op with
+            | .alarm _ =>
+              let ss := sendersOf mOrig.queue
+              if ss.length ≥ 2 then
+                let cands := if ss.length ≤ 5 then perms ss else (List.range ss.length).map (fun i => ss.drop i ++ ss.take i) ++ [ss.reverse]
+                update st.drainHist pid { pre := mOrig, beginOp := op, beginToks := implToks, untried := cands }
+              else st.drainHist
+            | _ => st.drainHist
+          else
+            match lookup st.drainHist pid with
+            | some h =>
+              if h.ops.length ≥ 500 || m'.inst.termination.isSome then st.drainHist.filter (·.1 != pid)
+              else update st.drainHist pid { h with ops := h.ops ++ [(op, implToks, nextAlarm)] }
+            | none => st.drainHist
+        let st' := { st with models := update st.models pid m', obs := update st.obs pid o3, drainHist := dh }
         if !fails.isEmpty then (st', .oracle (s!"node={pid} " ++ "; ".intercalate fails))
         else
           -- correspondence
@@ -534,7 +598,7 @@ def step (st : St) (line : String) : St × Verdict :=
   let toks := splitWs line
   match toks with
   | "run" :: n :: rest =>
-    ({ tbl := { entries := [] }, cfg := default, models := [], obs := [], mode := (getKV rest "mode").getD "", runNo := n.toNat?.getD 0,
+    ({ tbl := { entries := [] }, cfg := default, models := [], obs := [], drainHist := [], mode := (getKV rest "mode").getD "", runNo := n.toNat?.getD 0,
        K := ((getKV rest "K").bind (·.toNat?)).getD 1, gap := ((getKV rest "gap").bind (·.toInt?)).getD 0 }, .skip)
   | ["tbl", t] =>
     match (t.splitOn ",").mapM (fun e => match e.splitOn ":" with
